@@ -1,0 +1,67 @@
+//go:build verif
+// +build verif
+
+package server
+
+import (
+	"fmt"
+
+	"github.com/XiaoMi/Gaea/backend"
+	"github.com/XiaoMi/Gaea/log"
+	"github.com/XiaoMi/Gaea/mysql"
+	"github.com/XiaoMi/Gaea/parser/ast"
+	"github.com/XiaoMi/Gaea/util"
+)
+
+// Add-only exports for the verification harness in /verif (build tag verif),
+// property C20: the SET handling of a client session.
+
+// VerifNewSetExecutor returns a SessionExecutor that has what handleSet and
+// handleSetVariable read: a namespace with the given default charset,
+// default collation and allowed session variables, the proxy's advertised
+// server version, a general logger, and the charset/collation a handshake
+// with the given collation would have left.
+func VerifNewSetExecutor(defaultCharset string, defaultCollation mysql.CollationID, allowed map[string]string, serverVersion string, generalLogger log.Logger, charset string, collation mysql.CollationID) *SessionExecutor {
+	m := NewManager()
+	m.statistics = &StatisticManager{manager: m, generalLogger: generalLogger}
+	ns := &Namespace{
+		name:                    "verif",
+		defaultCharset:          defaultCharset,
+		defaultCollationID:      defaultCollation,
+		allowedSessionVariables: allowed,
+	}
+	se := newSessionExecutor(m)
+	se.namespace = "verif"
+	se.user = "verif"
+	se.contextNamespace = ns
+	se.charset = charset
+	se.collation = collation
+	s := new(Session)
+	s.proxy = &Server{manager: m, ServerVersion: serverVersion, ServerVersionCompareStatus: util.NewVersionCompareStatus(serverVersion)}
+	s.c = &ClientConn{Conn: &mysql.Conn{}}
+	s.executor = se
+	se.session = s
+	return se
+}
+
+// VerifHandleSetSQL parses one SET statement and hands it to handleSet, as
+// handleQueryWithoutPlan does.
+func (se *SessionExecutor) VerifHandleSetSQL(sql string) error {
+	n, err := se.Parse(sql)
+	if err != nil {
+		return fmt.Errorf("parse sql error, sql: %s, err: %v", sql, err)
+	}
+	stmt, ok := n.(*ast.SetStmt)
+	if !ok {
+		return fmt.Errorf("not a SET statement: %s", sql)
+	}
+	_, err = se.handleSet(util.NewRequestContext(), sql, stmt)
+	return err
+}
+
+// VerifInitBackendConn exposes initBackendConn with the session's own
+// charset, collation and variables, as executeSingleSQLInSlice and
+// handleFieldList call it.
+func (se *SessionExecutor) VerifInitBackendConn(pc backend.PooledConnect, phyDB string) error {
+	return initBackendConn(pc, phyDB, se.GetCharset(), se.GetCollationID(), se.GetVariables())
+}
